@@ -13,8 +13,11 @@ MUTANTS = [
     ('per tag loads deduplicated', [('mininec.Mininec.as_cmdline', "                and l.all_wires and key in loads", "                and key in loads")], ['writer-loops']),
     ('sources skipped when default', [('mininec.Mininec.as_cmdline', "        for s in self.sources:\n            cm = s.as_cmdline (explicit = len (self.sources) > 1)", "        for s in self.sources [:1]:\n            cm = s.as_cmdline (explicit = len (self.sources) > 1)")], ['writer-loops', 'element loops']),
     ('scale not recorded', [('mininec.Geo_Container.scale', "        self.scales.append ((factor, tag))\n", "")], ['writer-loops', 'recorded']),
+    ('medium coordinate only for the first medium', [('mininec.Medium.as_cmdline', "        if self.next:\n            v += ',%g' % self.coord", "        if self.next and not self.prev:\n            v += ',%g' % self.coord")], ['medium-interface']),
+    ('boundary not written', [('mininec.Medium.as_cmdline', "            if self.next:\n                r.append ('--boundary=%s' % self.boundary)\n", "")], ['medium-interface']),
 ]
 REFACTORS = [
     ('taper tag via local', [('mininec.Wire.as_cmdline', "tpr = '--taper-wire=%d,%d' % (self.tag, self.segtype)", "t = self.tag\n            tpr = '--taper-wire=%d,%d' % (self.tag, self.segtype)")]),
     ('load written in one format', [('mininec.Impedance_Load.as_cmdline', "        ld = '--load=%g' % self._impedance.real\n        if self._impedance.imag:\n            ld += '%+gj' % self._impedance.imag", "        ld = '--load=%g%+gj' % (self._impedance.real, self._impedance.imag)")]),
+    ('medium writer early return for the last medium', [('mininec.Medium.as_cmdline', "        if self.next:\n            v += ',%g' % self.coord\n        r.append (v)", "        v += ',%g' % self.coord if self.next else ''\n        r.append (v)")]),
 ]
